@@ -71,6 +71,12 @@ package atp
 //@ func RunATPServer$1()
 //@   requires session != nil && !closed(session.workDone) && !closed(session.runDoneChannel)
 
+// What the closure handler returns: one object per reported problem, each carrying its error.
+//@ func atpServerSession.handleClosure(s) -> res
+//@   requires s != nil
+//@   ensures forall j int :: 0 <= j && j < len(res) ==> res[j] != nil && res[j].Err != nil
+//@   loop 1 invariant forall j int :: 0 <= j && j < len(errors) ==> errors[j] != nil && allocated(errors[j]) && errors[j].Err != nil
+
 // A run is answered exactly once: either the work-done message is handed to the encoder, or one step-fatal error
 // for this run ID is queued - also when the step panics.
 //@ func atpServerSession.sendRuntimeMessage(s, msgID, runID, message) -> err
@@ -91,7 +97,7 @@ package atp
 
 // The client mutex guards the two run tables, the read-loop flag and the done flag; entries and their condition
 // variables are reachable only through the result table.
-//@ monitor client.mutex protects runningStepResultEntries, runningStepEmittedSignalChannels, readLoopRunning, done types executionEntry conds executionEntry.condition
+//@ monitor client.mutex protects runningStepResultEntries, runningStepEmittedSignalChannels, readLoopRunning, done insert-only runningStepResultEntries types executionEntry conds executionEntry.condition
 // C06 (safety core): while a caller is waiting for a result, a read loop is marked running.
 //@ monitorinvariant client.mutex(c): (exists k string :: k in c.runningStepResultEntries && c.runningStepResultEntries[k].result == nil) ==> c.readLoopRunning
 // A signalled entry has its result.
@@ -119,6 +125,8 @@ package atp
 //@   ensures forall k string :: k in c.runningStepResultEntries && (!(runID in c.runningStepResultEntries) || c.runningStepResultEntries[k] != c.runningStepResultEntries[runID]) ==> c.runningStepResultEntries[k].result == old(c.runningStepResultEntries[k].result)
 //@   ensures c.runningStepResultEntries == old(c.runningStepResultEntries) && (forall k string :: (k in c.runningStepResultEntries) == old(k in c.runningStepResultEntries)) && (forall k string :: k in c.runningStepResultEntries ==> c.runningStepResultEntries[k] == old(c.runningStepResultEntries[k]))
 //@   ensures c.readLoopRunning == old(c.readLoopRunning)
+// a completed run has no signal channel registered any more (the channel is closed exactly once)
+//@   ensures !(runID in c.runningStepEmittedSignalChannels)
 
 // A fatal stream error completes every pending entry with an error.
 //@ func NewErrorExecutionResult(err) -> res
